@@ -101,6 +101,52 @@ def murmur3_x64_128(data, seed=0):
     return _signed(h1), _signed(h2)
 
 
+def _inv_mul(m):
+    return pow(m, -1, 1 << 64)
+
+
+def _unxorshift33(k):
+    # k ^= k >> 33 is an involution-like map on 64 bits: applying it twice restores the value
+    return k ^ (k >> 33)
+
+
+def _unfmix(k):
+    k = _unxorshift33(k)
+    k = (k * _inv_mul(0xc4ceb9fe1a85ec53)) & M64
+    k = _unxorshift33(k)
+    k = (k * _inv_mul(0xff51afd7ed558ccd)) & M64
+    k = _unxorshift33(k)
+    return k
+
+
+def _rotr(x, r):
+    return ((x >> r) | (x << (64 - r))) & M64
+
+
+def murmur3_preimage16(target_h1, free):
+    """A 16-byte key whose hash3_x64_128(...)[0] is `target_h1` (signed or unsigned 64-bit); `free` (any
+    64-bit value) picks one of the 2^64 solutions.  The hash of a 16-byte key is one body round followed by
+    the finalizer, every step of which is a bijection on 64-bit words, so it can be run backwards."""
+    t = target_h1 & M64
+    b = free & M64                       # fmix(h2) just before the last h1 += h2
+    a = (t - b) & M64                    # fmix(h1)
+    h1p, h2p = _unfmix(a), _unfmix(b)    # after 'h1 += h2; h2 += h1'
+    h2 = (h2p - h1p) & M64
+    h1 = (h1p - h2) & M64
+    h1 ^= 16
+    h2 ^= 16
+    # undo the body round that started from h1 = h2 = 0
+    x2 = ((h2 - 0x38495ab5) * _inv_mul(5)) & M64        # rotl(k2', 31) + h1
+    k2m = _rotr((x2 - h1) & M64, 31)                    # h2 ^= k2' with h2 = 0
+    x1 = ((h1 - 0x52dce729) * _inv_mul(5)) & M64        # rotl(k1', 27) + 0
+    k1m = _rotr(x1, 27)
+    k1 = (_rotr((k1m * _inv_mul(C2)) & M64, 31) * _inv_mul(C1)) & M64
+    k2 = (_rotr((k2m * _inv_mul(C1)) & M64, 33) * _inv_mul(C2)) & M64
+    key = k1.to_bytes(8, 'little') + k2.to_bytes(8, 'little')
+    assert murmur3_x64_128(key)[0] == _signed(t), 'preimage construction is wrong'
+    return key
+
+
 def murmur3_raw(key):
     """hash[0] of Murmur3Partitioner.getHash (before normalisation)."""
     return murmur3_x64_128(key, 0)[0]
